@@ -498,6 +498,9 @@ pub struct C17 {
     /// reverses the position? Decided by the monitor from the pre-state - an opposite-side order reduces iff its notional
     /// is below the position's spot value (vAMM OutputAmount for the whole size) - not from the path the engine took
     pinned: Option<bool>,
+    /// the monitor's own record of the price at the end of the previous block (for deciding, independently of the
+    /// engine, whether a ClosePosition is one that closes the whole position)
+    band: BandTracker,
 }
 
 fn zero_limit(op: &Op) -> Option<Op> {
@@ -522,6 +525,9 @@ fn zero_limit(op: &Op) -> Option<Op> {
 impl Monitor for C17 {
     fn prop(&self) -> &'static str {
         "C17"
+    }
+    fn begin(&mut self, _w: &World, s0: &Snap, _r: &mut Report) {
+        self.band.begin(s0);
     }
     fn dry(&mut self, w: &mut World, op: &Op, _pre: &Snap, _r: &mut Report) {
         self.dry = None;
@@ -561,6 +567,13 @@ impl Monitor for C17 {
         }
     }
     fn post(&mut self, w: &World, st: &Step, r: &mut Report) {
+        self.check(w, st, r);
+        self.band.observe(&st.pre, &st.post);
+    }
+}
+
+impl C17 {
+    fn check(&mut self, w: &World, st: &Step, r: &mut Report) {
         let Some((_sender, msg, _)) = engine_msg(&st.op) else { return };
         let Some(vi) = st.op.engine_vamm().and_then(|a| w.vamm_idx(a)) else { return };
         let path = reply_path(w, &st.out);
@@ -646,9 +659,31 @@ impl Monitor for C17 {
                 }
                 let Some(q) = self.quote else { return };
                 let Some((dry_ok, dry_legs)) = self.dry.clone() else { return };
-                // pinned for whole-position closes only
-                let whole = dry_ok && dry_legs.len() == 1 && !dry_legs[0].input && dry_legs[0].base == p0.size.unsigned_abs();
-                if !whole {
+                // pinned for whole-position closes only. Whether this close is one is decided by the monitor, not read off what
+                // the engine does: a close is partial only when a partial ratio below one is configured and closing the whole
+                // position would take the price out of the band around the previous block's closing price (the monitor's own
+                // record of it); within two raw units of a band limit the case is left undecided
+                let a = &st.pre.vamms[vi];
+                let engine_whole = dry_legs.len() == 1 && !dry_legs[0].input && dry_legs[0].base == p0.size.unsigned_abs();
+                let whole: Option<bool> = if a.fluct == 0 || st.pre.eng.partial >= st.pre.eng.decimals {
+                    Some(true)
+                } else {
+                    let (lo, up) = self.band.bounds(vi, st.pre.height, a.fluct, a.decimals);
+                    let abs0 = p0.size.unsigned_abs();
+                    let after = if p0.long_dir { a.q.checked_sub(q).zip(a.b.checked_add(abs0)) } else { a.q.checked_add(q).zip(a.b.checked_sub(abs0)) };
+                    match after {
+                        Some((qa, ba)) if ba > 0 => match Big::u(qa).mul(Big::u(a.decimals)).div(Big::u(ba)).to_u128() {
+                            Some(price) if price + 2 <= up && price >= lo + 2 => Some(true),
+                            Some(price) if price > up + 2 || price + 2 < lo => Some(false),
+                            _ => None,
+                        },
+                        _ => None,
+                    }
+                };
+                if whole == Some(true) && dry_ok && !engine_whole {
+                    r.count("closes-the-engine-made-partial-although-the-whole-close-stays-in-the-band");
+                }
+                if whole != Some(true) || !dry_ok {
                     r.count("limit-on-partial-or-failing-close(not pinned)");
                     return;
                 }
